@@ -37,8 +37,8 @@ type fixtures struct {
 }
 
 var (
-	fxOnce sync.Once
-	fx     fixtures
+	fxOnce  sync.Once
+	fx      fixtures
 	rsaKeys = map[string]*rsa.PrivateKey{}
 	ecKeys  = map[string]*ecdsa.PrivateKey{}
 	edKeys  = map[string]ed25519.PrivateKey{}
